@@ -15,7 +15,7 @@ SignVarOk ==
   /\ Ev.dwlength = DwLength(Ev.siglen) /\ Ev.revision = 512 /\ Ev.certtype = 3825 /\ Ev.typeguid = "pkcs7"
   /\ Ev.payload_unchanged
   /\ TimeOK(Ev.time, Ev.clock[1], Ev.clock[2])
-  /\ Ev.sig.bare /\ Ev.sig.detached /\ Ev.sig.sha256 /\ Ev.sig.one_signer /\ Ev.sig.sid_is_cert /\ Ev.sig.rsa_ok    \* bare DER SignedData, detached, by the given key
+  /\ Ev.sig.bare /\ Ev.sig.detached /\ Ev.sig.sha256 /\ Ev.sig.one_signer /\ Ev.sig.sid_is_cert /\ Ev.sig.rsa_ok /\ Ev.sig.times_der    \* bare DER SignedData, detached, by the given key
   /\ \A c \in Candidates : c \in DOMAIN Ev.verifies =>
         /\ (Ev.verifies[c].independent <=> Binds(c))                \* messageDigest commits to exactly the right buffer
         /\ (Ev.verifies[c].mozilla <=> Binds(c))
